@@ -364,9 +364,11 @@ func (h *RealtimeHandler) HandleEntityDelete(ctx context.Context, respond hwebso
 
 	now := timestamppb.Now()
 
-	session.GetEntityComponents().DeleteByEntityID(entity.ID)
+	// The components go once the entity is out of the session: a component that
+	// another participant adds in the meantime is either dropped here or refused.
 	session.RemoveEntity(entity)
 	participant.RemoveEntity(entity)
+	session.GetEntityComponents().DeleteByEntityID(entity.ID)
 
 	respond.Send(&hagallpb.EntityDeleteResponse{
 		Type:      hagallpb.MsgType_MSG_TYPE_ENTITY_DELETE_RESPONSE,
@@ -651,6 +653,19 @@ func (h *RealtimeHandler) HandleEntityComponentAdd(ctx context.Context, respond 
 			Timestamp: timestamppb.Now(),
 			RequestId: req.RequestId,
 			Code:      errCode,
+		})
+		return nil
+	}
+
+	// The entity may have been deleted since it was looked up, and its components
+	// dropped: a component stored after that would stay for ever.
+	if _, ok := session.EntityByID(entity.ID); !ok {
+		session.GetEntityComponents().Delete(entityComponent.EntityComponentTypeId, entityComponent.EntityId)
+		respond.Send(&hagallpb.ErrorResponse{
+			Type:      hagallpb.MsgType_MSG_TYPE_ERROR_RESPONSE,
+			Timestamp: timestamppb.Now(),
+			RequestId: req.RequestId,
+			Code:      hagallpb.ErrorCode_ERROR_CODE_NOT_FOUND,
 		})
 		return nil
 	}
@@ -1024,8 +1039,8 @@ func (h *RealtimeHandler) leaveSession() {
 			continue
 		}
 
-		session.GetEntityComponents().DeleteByEntityID(entity.ID)
 		session.RemoveEntity(entity)
+		session.GetEntityComponents().DeleteByEntityID(entity.ID)
 
 		h.FeatureFlags.IfNotSet(featureflag.FlagDisableEntityDeleteBroadcast, func() {
 			session.Broadcast(participant, &hagallpb.EntityDeleteBroadcast{
